@@ -524,3 +524,10 @@ def run_one(tape, tier, prop):
         finally:
             _WORK[0] = None
     return res
+
+
+def extra_phase(tier, base_seed, prop="C10"):
+    if prop not in ("C10", "C11"):
+        return {}
+    from .. import bigworld
+    return bigworld.omen_model_phase(prop, tier, base_seed)
